@@ -402,7 +402,7 @@ class C04(Prop):
 
     def execute_par(self, sc, ctx):
         p = sc['par']
-        r = ctx.subrun(_run_par, dict(p, schedule=sc.get('schedule')))
+        r = ctx.subrun(_run_par, dict(p, schedule=sc.get('schedule')), ambient=False)      # seam B of its own
         if r['status'] != 'ok':
             from ..core.ctx import HarnessError
             raise HarnessError('parallelize sub-run failed: %s' % json.dumps(r)[:500])
